@@ -295,6 +295,11 @@ Property Section::createProperty(const std::string &name, const DataType &dtype)
 Property Section::createProperty(const std::string &name, const std::vector<Variant> &values) {
     if (values.size() < 1)
         throw std::runtime_error("Trying to create a property without a value!");
+    for (const Variant &v : values) {
+        if (v.type() != values[0].type()) {
+            throw std::invalid_argument("Section::createProperty: all values must have the same DataType!");
+        }
+    }
     util::checkEntityName(name);
     if (backend()->hasProperty(name)) {
         throw DuplicateName("hasProperty");
